@@ -92,9 +92,45 @@ def check(ctx):
   r3(ctx)
   r4(ctx, bh, pr)
   r5(ctx)
+  put_args_rules(ctx)
   from . import c11
   ctx.rule('C11.R3', 'shared with C11: a correlation id is released only by the reply path or for a never-written request (Kafka has no discard message)')
   c11.r2_r3(ctx)
+
+
+def put_args_rules(ctx):
+  """MessageHelper.GetPutArgs hands (topic, payloads, acks) on exactly as the caller gave them (defaults only for omitted arguments)."""
+  prog = ctx.prog
+  g = prog.func(KP, 'MessageHelper.GetPutArgs')
+  why = ('for every topic, partition, ack setting and payload list the request carries the caller\'s values: `acks or 1` / `x if x else d` replace a legitimate '
+         'falsy value (acks = 0: fire and forget) by the default')
+  inner = list(g.nested.values())
+  cand = inner[0] if len(inner) == 1 else g
+  params = cand.params if cand is not g else []
+  rets = [r for r in walk_no_nested(cand.node) if isinstance(r, ast.Return) and isinstance(r.value, ast.Tuple)]
+  ok = bool(rets)
+  what = 'no (topic, payloads, acks) tuple returned'
+  for r in rets:
+    els = r.value.elts
+    if len(els) != 3:
+      ok = False
+      continue
+    for idx in (0, 2):       # topic and acks must be the bare parameters
+      e = els[idx]
+      if not (isinstance(e, ast.Name) and e.id in params):
+        ok = False
+        what = 'element %d of the returned tuple is %s, not the caller\'s argument' % (idx, U(e))
+    # payloads: the parameter, or a None -> [] default only
+    e = els[1]
+    if not (isinstance(e, ast.Name) and e.id in params) and not (isinstance(e, ast.BoolOp) and isinstance(e.op, ast.Or) and isinstance(e.values[0], ast.Name) and e.values[0].id in params and U(e.values[1]) == '[]'):
+      ok = False
+      what = 'payloads are returned as %s' % U(e)
+  # no rebinding of the parameters on the way
+  reb = [U(st) for st in walk_no_nested(cand.node) if isinstance(st, (ast.Assign, ast.AugAssign)) and any(U(t) in ((params[0], params[2]) if len(params) >= 3 else ()) for t in (st.targets if isinstance(st, ast.Assign) else [st.target]))]
+  ctx.ob('C15.R5', cand, 'topic and acks of a Put reach the request exactly as given', ok and not reb, what if not reb else 'arguments rebound: %s' % reb, why)
+  d = cand.node.args.defaults
+  dm = dict(zip(params[len(params) - len(d):], [U(x) for x in d])) if params else {}
+  ctx.ob('C15.R5', cand, 'omitted acks default to 1 (leader acknowledgement)', dm.get(params[2] if len(params) >= 3 else 'acks') == '1', 'defaults are %s' % dm, why, nontrivial=False)
 
 
 def fold_consts(prog, f, lf):
